@@ -8,6 +8,7 @@ package surveyor
 //@   immutable: s p closeQ sendQ
 //@
 //@ struct context
+//@   close_token closeQ when closed
 //@   guarded_by s.Mutex: closed recvQLen recvExpire survExpire surv
 //@   immutable: s closeQ
 //@
@@ -100,3 +101,9 @@ package surveyor
 //@
 //@ func (*context).SendMsg
 //@   accepts_shared m
+//@
+//@ func (*socket).RemovePipe
+//@   may_close p.closeQ caller
+//@
+//@ func (*survey).cancel$1
+//@   may_close s.recvQ once
